@@ -192,3 +192,19 @@ Definition rxmap_spec (tr : list event) (dl : list (N * bytes)) : list (N * byte
 
 (** List prefix. *)
 Definition prefix {A} (l1 l2 : list A) : Prop := exists r, l2 = l1 ++ r.
+
+(** The bundle queued under transfer id [id] (ids count from 1). *)
+Definition bundle_of (q : list bytes) (id : N) : option bytes :=
+  if id =? 0 then None else nth_error q (N.to_nat (id - 1)).
+
+(** What a sent transfer must look like: it carries (a prefix of) the bundle
+    queued under its id; all of it when complete. *)
+Definition transfer_ok (q : list bytes) (t : transfer) : Prop :=
+  exists b, bundle_of q (tr_id t) = Some b /\
+            (tr_complete t = true -> tr_data t = b) /\
+            (tr_complete t = false -> prefix (tr_data t) b).
+
+(** START segments announce the total length of their bundle; others carry no extension. *)
+Definition seg_ext_ok (q : list bytes) (g : xseg) : Prop :=
+  exists b, bundle_of q (xs_id g) = Some b /\
+            xs_ext g = if has_start (xs_flags g) then total_length_ext (N.of_nat (length b)) else [].
